@@ -54,7 +54,7 @@ SUB3 = [(x, y) for x in (0, 2, 4) for y in (0, 2, 4)]
 SUB2 = [(x, y) for x in (0, 4) for y in (0, 4)]
 RES = [(1, 1), (2, 1), (1, 2), (0.5, 2), (3, 0.7), None]
 MARGINS = [0.5, 0.25, 0.05, 0]
-DISTS = [0, 0.3, 1, 2.5, 5]
+DISTS = [0, 0.3, 1, 1.95, 2.5, 2.95, 3.95, 5]       # x.9: just below a whole number of cells, where the far corner cells of the window are needed
 # extra query segments (lattice units): oblique, along grid lines, through corners, degenerate, ending on the outer border
 QSEG = [[(0.25, 0.5), (3.75, 1.5)], [(0.5, 3.5), (3.5, 0.5)], [(1, 0), (1, 4)], [(0, 2), (4, 2)], [(4, 0), (0, 4)],
         [(3.3, 0.2), (0.1, 3.9)], [(0.5, 0.5), (0.5, 0.5)], [(2, 2), (2, 2)], [(2.5, 1.5), (2.5, 3.0)]]
@@ -82,6 +82,9 @@ OBLIGATIONS = {
 
 
 def _seconds(name, variant):
+    if name == "dots":       # a tiny feature just inside the lower-left corner of one unit cell (grid lines on the integers): found only
+        lat = alpha.order(variant, LAT)           # through that cell, so the far corner cells of a neighbourhood window matter
+        return [[(a + 0.03125, b + 0.03125), (a + 0.0625, b + 0.03125)] for (a, b) in lat if a < 4 and b < 4]
     if name == "all":
         lat = alpha.order(variant, LAT)
         return [[a, b] for a in lat for b in lat] + [[a, b, c] for a in lat for b in lat for c in lat]
@@ -94,9 +97,10 @@ def _tier_plan(tier):
     ex = list(range(5))
     if tier == "quick":
         return [("tc2", "two", ex, False), ("tc3", "sub3", ex, True), ("net_post", "sub3", ex, False),
-                ("net_pre", "sub3", ex, False), ("tc3", "sub2", [5], False)]
+                ("net_pre", "sub3", ex, False), ("tc3", "sub2", [5], False), ("tc2", "dots", [0, 1, 2], False)]
     return [("tc2", "all", ex, False), ("tc3", "two", ex, True), ("net_post", "two", ex, False),
-            ("net_pre", "two", ex, False), ("tc3", "sub3", [5], False), ("net_pre", "sub2", [5], False)]
+            ("net_pre", "two", ex, False), ("tc3", "sub3", [5], False), ("net_pre", "sub2", [5], False),
+            ("tc2", "dots", ex, True)]
 
 
 def bounds(tier, variant):
@@ -615,7 +619,9 @@ def run_index(spec, full_nbh, ctx):
     ctx.case(check_query(B, list(key[1]), "track", ctx))
     # (4) ground-distance neighbourhood
     s = alpha.scale(variant)
-    for (qx, qy) in (pts if full_nbh else lat):
+    near_corner = [(x - 0.03125 * s, y - 0.03125 * s) for (x, y) in lat
+                   if x - 0.03125 * s > G["xmin"] + e and y - 0.03125 * s > G["ymin"] + e]     # just inside an upper-right cell corner
+    for (qx, qy) in (pts if full_nbh else lat) + near_corner:
         for d in DISTS:
             ctx.case(check_nbh(B, qx, qy, d * s, ctx))
     return B
